@@ -255,11 +255,13 @@ func vfJitter() {
 	vfJitterN = vfJitterN*1664525 + 1013904223 + uint32(time.Now().UnixNano())
 	r := vfJitterN >> 16
 	vfMu.Unlock()
-	switch r % 4 {
-	case 0:
+	switch r % 8 {
+	case 0, 1:
 		runtime.Gosched()
-	case 1:
+	case 2, 3:
 		time.Sleep(time.Duration(r%200) * time.Microsecond)
+	case 4:
+		time.Sleep(time.Duration(r%3000) * time.Microsecond)
 	}
 }
 
